@@ -238,7 +238,8 @@ def run(tier):
     res.assumptions = [
         'binary64 comparisons of coordinates equal exact comparisons (bends() only compares; validated by the exhaustive sweep)',
         'cpp2v translates the fragment faithfully (validated by the same sweep, every run)',
-        'an optimal orthogonal path exists on the Hanan grid (classical, not proved); the grid oracle is proved sound, its optimality is not',
+        'an optimal orthogonal path exists on the Hanan grid (classical, not proved); the grid oracle is proved sound and optimal over all walks of '
+        'its own grid graph (grid_oracle_optimal: blocked = interior of the union of the rectangles)',
     ]
     R = 2 if tier == 'quick' else 3
     exe = build_harness_retry('c05_bends', ['libavoid'], 'exc')
@@ -386,14 +387,14 @@ META = {
                 'the COLA_ASSERTs of bends/dir* are unreachable; the arithmetic of estimatedCostSpecific (manhattan + penalty * min over '
                 'allowed arrival directions, and the initial-point branch) is admissible.  "The search finds the minimum-cost route" is '
                 'PARTIAL: a verified route checker (axis-parallel, obstacle-avoiding, endpoints, cost) and a grid-search oracle proved '
-                'SOUND (its cost is realised by a checked path) are run against the real raw routes; the oracle\'s optimality, the Hanan-grid '
-                'fact and the A* / scan-line graph are validated by cost equality only.',
+                'SOUND (its cost is realised by a checked path) and OPTIMAL over every walk of the Hanan-grid graph it searches (relaxation fixpoint) '
+                'are run against the real raw routes; the Hanan-grid sufficiency fact and the A* / scan-line graph are validated by cost equality only.',
         'design_ref': 'DESIGN.md 5.5'},
     'level_note': 'Trusted: Coq kernel; cpp2v.py + clang JSON AST (validated every run by the exhaustive three-way sweep compiled Avoid::bends / '
                   'extracted Gen / extracted closed form + brute-force BFS over {-2..2}^2 x 16 direction pairs x 3 base points); exact-rational model of '
                   'binary64 comparisons; extraction (ExtrOcamlBasic) and the OCaml/C++ drivers. estimatedCostSpecific is a hand model of '
-                  'makepath.cpp:795-853 calling the generated functions (not translated: it reads ConnRef/VertInf). Not proved: optimality of the '
-                  'grid oracle and of the A* search (C05_grid_oracle_partial). Not covered: pin direction restrictions (libavoid treats visDirs of '
+                  'makepath.cpp:795-853 calling the generated functions (not translated: it reads ConnRef/VertInf). Not proved: Hanan-grid sufficiency '
+                  '(named assumption of C05_grid_oracle_optimal) and the A* search. Not covered: pin direction restrictions (libavoid treats visDirs of '
                   'free-floating endpoints as visibility hints, not hard constraints, so no oracle for them is run); touching rectangles are outside the '
                   'generated domain (the oracle blocks shared sides: interior of the union). A bends() value BELOW the closed form is reported as a broken '
                   'equality proof without failing input (it is still admissible); a value above it, or an assertion, is a violation with the input.',
